@@ -305,9 +305,20 @@ def check_downcast(ck, F, tr, imp, iname):
                 problems.append("the none-layer marker is returned on a path that did not establish id == TypeId::of::<NoneLayerMarker>()")
     if hd == "tracing_subscriber::reload::Subscriber":
         # a pointer into the lock would dangle: only the never-dereferenced none-layer marker may be looked up inside
+        psf_forwarded = False
         for pth in PathEval(top).run():
-            if pth.end == "return" and any(c[1].get("method") == "downcast_raw" for c in pth.calls) and not any("NoneLayerMarker" in x for x in asked_for(pth)):
-                problems.append("the wrapped value is asked for a pointer on a path that did not establish id == TypeId::of::<NoneLayerMarker>()")
+            if pth.end != "return" or not any(c[1].get("method") == "downcast_raw" for c in pth.calls):
+                continue
+            psf = any(show(c[0]).startswith("is_psf_downcast_marker(") and c[1] != 0 for c in pth.conds)
+            psf_forwarded = psf_forwarded or psf
+            if not psf and not any("NoneLayerMarker" in x for x in asked_for(pth)):
+                problems.append("the wrapped value is asked for a pointer on a path that established neither id == TypeId::of::<NoneLayerMarker>() nor the per-layer-filter marker")
+        # ... and the per-layer-filter marker must get through: the Layered around a reloadable Filtered layer has to know
+        # that the layer's hint and interest are its own business, or it publishes them for the whole stack
+        has_psf_code = any(b_.path.endswith("subscriber_filters::is_psf_downcast_marker") for b_ in F.body_list)
+        if has_psf_code and not psf_forwarded:
+            problems.append("the per-layer-filter marker is not forwarded to the wrapped value: a reloadable filtered layer's max level hint is taken for a global one "
+                            "and its unfiltered neighbours lose the events above it")
     if problems:
         ck.bad(RIDS["R2"], key, where(top.raw["sp"]), "; ".join(sorted(set(problems))), fn=path)
     else:
